@@ -1300,6 +1300,16 @@ def _mk_trim(front, back, whitespace):
         s = _str_of(I, st, args[0])
         if not isinstance(s, Str):
             return TOP
+        pat_s = _str_of(I, st, args[1]) if (not whitespace and len(args) > 1 and isinstance(args[1], (Ref, Str))) else None
+        if isinstance(pat_s, Str) and len(pat_s.s) != 1:
+            # a string pattern: stripped as a whole, repeatedly
+            t = s.s
+            if pat_s.s:
+                while front and t.startswith(pat_s.s):
+                    t = t[len(pat_s.s):]
+                while back and t.endswith(pat_s.s):
+                    t = t[:-len(pat_s.s)]
+            return Str(t)
         if whitespace:
             pred = lambda ch: ch in _RUST_WS
         else:
